@@ -622,6 +622,12 @@ qb_ipcs_disconnect(struct qb_ipcs_connection *c)
 	}
 	if (c->state == QB_IPCS_CONNECTION_SHUTTING_DOWN) {
 		int scheduled_retry = 0;
+
+		if (c->closed_completed) {
+			/* connection_closed() has completed and the initial
+			 * reference is gone: nothing left to do here */
+			return;
+		}
 		res = 0;
 		if (c->service->serv_fns.connection_closed) {
 			res = c->service->serv_fns.connection_closed(c);
@@ -641,6 +647,7 @@ qb_ipcs_disconnect(struct qb_ipcs_connection *c)
 		}
 		remove_tempdir(c->description);
 		if (scheduled_retry == 0) {
+			c->closed_completed = QB_TRUE;
 			/* This removes the initial alloc ref */
 			qb_ipcs_connection_unref(c);
 		}
